@@ -9,7 +9,7 @@
 //   pre=<k>:<len>[+a],..  entries stored before the fibers start (real API, outside the player): key k, len slices,
 //                    "+a" = left in appending mode by a writer that is not a fiber (never closes)
 //   maxw=<n>         slices a writer may add (default 2)    maxu=<n> slices an updater may add (default 1)
-//   ops=<op>,<op>    restrict enabledOps to these op kinds (ow,ws,sa,cw,aw,or,rs,cr,cf,fe,fk,p,ou,us,cu,au)
+//   kinds=<op>,<op>  restrict enabledOps to these op kinds (ow,ws,sa,cw,aw,or,rs,cr,cf,fe,fk,p,ou,us,cu,au)
 //   strict=1         the driver monitor also reports the two classes of rejections that are findings on the unchanged
 //                    code (message starts with "[known:<kind>]"); default: they are left to TLC (histories)
 // One op = one PUBLIC StoreMap call (plus the caller's own accesses that belong to it), so the call/return history
@@ -83,6 +83,7 @@ struct Ed {
     int writer = -1;            // fiber that created it and has not called its releasing call yet (definite exclusive holder)
     bool readable = false;      // its writer has called sa / cw / cu (readers may legitimately open it from that call on)
     bool aborted = false;       // aw/au returned for it: no open that starts later may succeed
+    int aborting = -1;          // fiber whose aw/au for this edition is in progress
     bool dead = false;          // a deletion that covers it has returned (the property as stated)
     bool deadR = false;         // ... not counting deletions that raced with the closeForUpdating that made it (relaxed)
     bool sup = false;           // stale edition of an update whose closeForUpdating was called (shares its suffix)
@@ -109,7 +110,6 @@ struct SmTarget : Target {
     std::vector<std::set<int>> ban, banR;             // per fiber: anchors dead (strict / relaxed) when its pending open started
     std::vector<char> inCu, delPending;
     std::string broken, knownBroken;
-    int curFiber = -1;                                // fiber whose run() is executing (for the cleaner)
 
     ~SmTarget() override { destroy(); }
     void destroy() {
@@ -125,7 +125,7 @@ struct SmTarget : Target {
     // ---------------------------------------------------------------------------------------------
     void reset(int nfibers, const std::string &config) override {
         destroy();
-        nf = nfibers; N = 3; maxw = 2; maxu = 1; keys = {1, 2}; opFilter.clear(); broken.clear(); knownBroken.clear(); curFiber = -1;
+        nf = nfibers; N = 3; maxw = 2; maxu = 1; keys = {1, 2}; opFilter.clear(); broken.clear(); knownBroken.clear();
         strictMon = false; preApp.clear();
         int poolN = -1; std::vector<std::string> pre;
         for (auto &tok : Split(config, ' ')) {
@@ -135,7 +135,7 @@ struct SmTarget : Target {
             else if (tok.rfind("pre=", 0) == 0) pre = Split(tok.substr(4), ',');
             else if (tok.rfind("maxw=", 0) == 0) maxw = atoi(tok.c_str() + 5);
             else if (tok.rfind("maxu=", 0) == 0) maxu = atoi(tok.c_str() + 5);
-            else if (tok.rfind("ops=", 0) == 0) { for (auto &x : Split(tok.substr(4), ',')) opFilter.insert(x); }
+            else if (tok.rfind("kinds=", 0) == 0) { for (auto &x : Split(tok.substr(6), ',')) opFilter.insert(x); }
             else if (tok == "strict=1") strictMon = true;
         }
         if (poolN < 0 || poolN > N) poolN = N;
@@ -217,7 +217,6 @@ struct SmTarget : Target {
     }
 
     std::string run(int p, const std::string &op) override {
-        curFiber = p;
         Fib &f = fib[p];
         f.freed.clear();
         const std::string kind = Kind(op);
@@ -290,7 +289,6 @@ struct SmTarget : Target {
         } else if (kind == "au") {
             map->abortUpdating(*upd[p]); f.mode = Idle; r = "T";
         }
-        curFiber = -1;
         return withFreed(p, r);
     }
 
@@ -304,7 +302,7 @@ struct SmTarget : Target {
 
     // the cleaner runs inside the freeing fiber's step
     void freedSlice(int s) {
-        const int p = curFiber;
+        const int p = Sched::I().current();      // the fiber whose call is freeing (fibers interleave inside run())
         if (s < 0 || s >= N) { flag("cleaner called for invalid slice " + std::to_string(s)); return; }
         if (p >= 0) fib[p].freed.push_back(s);
         for (int a : users[s]) {
@@ -377,8 +375,8 @@ struct SmTarget : Target {
         Fib &f = fib[p];
         if (kind == "cw" || kind == "aw" || kind == "cr" || kind == "cf" || kind == "cu" || kind == "au") f.calledClose = true;
         if (kind == "sa" || kind == "cw") { ed[f.a].readable = true; if (kind == "cw") ed[f.a].writer = -1; }
-        if (kind == "aw") ed[f.a].writer = -1;
-        if (kind == "au") ed[f.b].writer = -1;
+        if (kind == "aw") { ed[f.a].writer = -1; ed[f.a].aborting = p; }
+        if (kind == "au") { ed[f.b].writer = -1; ed[f.b].aborting = p; }
         if (kind == "cu") {
             ed[f.b].readable = true; ed[f.b].writer = -1; ed[f.a].sup = true; inCu[p] = 1;
             // the stale suffix (everything after the first stale slice) is about to be shared with the fresh chain
@@ -432,10 +430,9 @@ struct SmTarget : Target {
             for (auto &b : ban) if (b.count(f.a)) b.insert(f.b);
             for (auto &b : banR) if (b.count(f.a)) b.insert(f.b);
             ed[f.b].dead = ed[f.a].dead; ed[f.b].deadR = ed[f.a].deadR;
-        } else if (kind == "aw") {
-            ed[f.a].aborted = true; ed[f.a].readable = false;
-        } else if (kind == "au") {
-            ed[f.b].aborted = true; ed[f.b].readable = false;
+        } else if (kind == "aw" || kind == "au") {
+            // (a new edition may have been born at the anchor while the abort was finishing: it is not the aborted one)
+            for (auto &e : ed) if (e.aborting == p) { e.aborted = true; e.aborting = -1; }
         } else if (kind == "cu") {
             inCu[p] = 0;
         } else if (kind == "fk" || kind == "fe") {
@@ -472,7 +469,7 @@ struct SmTarget : Target {
             o << "," << int(f.calledClose) << "," << JSet(cov[p]) << "," << JSet(exc[p]) << "," << JSet(ban[p]) << "," << JSet(banR[p]) << "]";
         }
         o << "],\"ed\":[";
-        for (int a = 0; a < N; ++a) { const Ed &e = ed[a]; o << (a ? "," : "") << "[" << e.key << "," << e.writer << "," << int(e.readable) << int(e.aborted) << int(e.dead) << int(e.deadR) << int(e.sup) << "]"; }
+        for (int a = 0; a < N; ++a) { const Ed &e = ed[a]; o << (a ? "," : "") << "[" << e.key << "," << e.writer << "," << e.aborting << ",\"" << int(e.readable) << int(e.aborted) << int(e.dead) << int(e.deadR) << int(e.sup) << "\"]"; }
         o << "],\"users\":[";
         for (int s = 0; s < N; ++s) o << (s ? "," : "") << JSet(users[s]);
         o << "],\"known\":" << (knownBroken.empty() ? 0 : 1) << "}";
